@@ -69,6 +69,10 @@ CHECKS.update({
     "C18": dict(technique="TLA+ spec Reconnect.tla (manager state, retry timer, mDNS listener, the attempt in flight / cancelled-but-unwinding / waiting successor / waiting stop that the lock serialises) model-checked by TLC (OneAtATime, StoppedMeansQuiet, NoAttemptWhileUp, TimerSanctioned, BackoffByTries, CallbacksAlternate); the real ReconnectLogic on the real APIClient/APIConnection over the simulated network; the observable event stream and rest-point snapshots validated by TLC against TraceReconnect.tla", text="Design properties model-checked over all orders of user calls, outcomes, session ends, records and time in the bounds; on the real manager every attempt instant (virtual ms), callback, listener add/remove and stop return must be produced by a specification step and every rest-point snapshot (state, tries, retry deadline, listener) must equal the specification's, so a wrong back-off, a second attempt in flight or a listener left after stop is a rejected trace.", design="§3.7, §6 C18", note="User callbacks return without awaiting; start() is called on a stopped manager at rest. A cancelled attempt counts as a failed one (library behaviour); FIFO order of lock waiters is not tracked (either order accepted). " + TB),
 })
 
+CHECKS.update({
+    "C20": dict(technique="TLA+ module Resolver.tla: the resolution decision procedure written from the statement (TLC enumerates every host list in the bounds and evaluates look-ups / ordered result / error plus the procedure's own properties) replayed case by case into the real async_resolve_host; the zeroconf ownership state machine model-checked (SuppliedNeverClosed, CreatedClosedWhenDone) and every operation sequence on the real ZeroconfManager validated by TLC against TraceResolver.tla", text="Exhaustive over the bounded case space: 11 100 host lists (forms x mDNS outcome x OS outcome) compared on look-ups performed, ordered AddrInfo list (family order, scope id, port) and error; all operation sequences of length <= 5 (thorough 7) over {supply, look-up, listen, stop} on the real manager.", design="§3.8, §6 C20", note="Fakes stand in for zeroconf's AsyncServiceInfo/AsyncZeroconf and loop.getaddrinfo; a non-numeric scope maps to 0; an OS-resolver error aborts the resolution with a connection error. " + TB),
+})
+
 NOT_YET = {}
 
 
